@@ -33,6 +33,10 @@ type BoundedResult struct {
 	Replay  string  `json:"replay,omitempty"`
 	Label   string  `json:"label"`
 	Skipped bool    `json:"skipped,omitempty"`
+	// Findings: "key: what" lines the harness printed as WKV-FINDING - executions of the real
+	// code that break the property; each must be a listed known finding or is a violation
+	Findings []string `json:"findings,omitempty"`
+	Log      string   `json:"-"`
 }
 
 // MNode describes one value of the model: a tree following the Go type.
@@ -945,6 +949,13 @@ func runBounded(spec *PropertySpec, repo, verif, tier, prop, replayDir string) [
 		ok, cases, log := runOverlayTest(repo, verif, b.Pkg, filepath.Join(verif, "bounded", b.File), b.Run, 600)
 		r.OK, r.Cases = ok, cases
 		r.Seconds = time.Since(start).Seconds()
+		r.Log = log
+		for _, l := range splitLines(log) {
+			l = strings.TrimSpace(l)
+			if strings.HasPrefix(l, "WKV-FINDING ") {
+				r.Findings = append(r.Findings, strings.TrimPrefix(l, "WKV-FINDING "))
+			}
+		}
 		if !ok {
 			os.MkdirAll(replayDir, 0o755)
 			p := filepath.Join(replayDir, "bounded_"+sanitize(b.Name)+".txt")
